@@ -1328,7 +1328,7 @@ static int vc_definition(int newwin)
 	}
 	ln = lbuf_get(xb, r);
 	if ((s = strstr(ln, cw)) != NULL)
-		o = s - ln;
+		o = uc_off(ln, s - ln);
 	vi_marksave();
 	if (newwin)
 		vi_wmirror();
